@@ -311,6 +311,22 @@ def stubborn(x=None, ready_file=None):
             pass
 
 
+def stubborn_sigign(x=None, ready_file=None):
+    """Swallows every exception and ignores SIGTERM: only SIGKILL ends it."""
+    import time as _t
+    import signal as _sg
+    _sg.signal(_sg.SIGTERM, _sg.SIG_IGN)
+    if ready_file:
+        with open(ready_file, 'w') as f:
+            f.write('r')
+    while True:
+        try:
+            while True:
+                _t.sleep(0.002)
+        except BaseException:  # noqa
+            pass
+
+
 def cooperative(x=None, ready_file=None):
     import time as _t
     if ready_file:
